@@ -188,6 +188,7 @@ def check(ctx, rep):
     rep.rule("R20a", "connection handler catches and logs everything from protocol.handle(); servers wrap finish_request and always shut down", floor=3)
     rep.rule("R20b", "I/O-error replies do not index exception arguments", floor=4)
     rep.rule("R20c", "resources acquired on the request path are scoped (with / factory / non-escaping local / closed in finally)", floor=15)
+    rep.rule("R20e", "body writers (handler write(), protocol handlerwrite(), copyto()) let connection errors pass unchanged", floor=5)
     rep.rule("R20d", "log line interpolates client address, protocol class name and the exception's own class name", floor=3)
     rep.assume("CPython reference counting releases a descriptor held only by a dead frame's locals")
 
@@ -404,3 +405,59 @@ def check(ctx, rep):
                 [norm(n)[:50] for n in ast.walk(lg.node) if isinstance(n, ast.Global)]
         rep.add("R20d", "log() keeps no state between calls", not state, ctx.where(lg),
                 f"log() records `{state[0]}`: whether a failure is logged depends on what was logged before" if state else "", key="R20d|stateless")
+
+    # ------------------------------------------------------------------ R20e
+    body_writer_obligations(ctx, rep, "R20e")
+
+
+def body_writer_obligations(ctx, rep, rule):
+    """A failure of the client connection while a body is being sent has to reach the connection handler as the
+    exception it is (that is what gets logged under its own class): no handler or protocol body writer catches an
+    I/O error around a call that writes to the client and turns it into something else."""
+    prog = ctx.prog
+    targets = []
+    for H in ctx.handler_classes():
+        m = prog.resolve_method(H, "write")
+        if m is not None:
+            targets.append((m, H))
+    for P in ctx.protocol_classes():
+        m = prog.resolve_method(P, "handlerwrite")
+        if m is not None:
+            targets.append((m, P))
+    vr = ctx.cls("handlers.base.VFS_Real")
+    if vr is not None:
+        for V in prog.subclasses(vr):
+            m = prog.resolve_method(V, "copyto")
+            if m is not None:
+                targets.append((m, V))
+    seen = set()
+    n = 0
+    for m, C in targets:
+        if m in seen:
+            continue
+        seen.add(m)
+        wparams = [p for p in m.params if p in ("wfile", "fd", "outfile", "out", "ofile") or p.endswith("wfile")]
+        if not wparams:
+            wparams = [p for p in m.params[1:2]] if m.name == "write" else []
+        n += 1
+        problems = []
+        for tr in [x for x in ast.walk(m.node) if isinstance(x, ast.Try)]:
+            writes = [c for st_ in tr.body for c in ast.walk(st_) if isinstance(c, ast.Call) and (
+                any(isinstance(a, ast.Name) and a.id in wparams for a in c.args) or
+                any(isinstance(k.value, ast.Name) and k.value.id in wparams for k in c.keywords) or
+                (isinstance(c.func, ast.Attribute) and isinstance(c.func.value, ast.Name) and c.func.value.id in wparams))]
+            if not writes:
+                continue
+            for hd in tr.handlers:
+                if not (catches(hd, "BrokenPipeError") or catches(hd, "OSError")):
+                    continue
+                # unchanged re-raise: a bare `raise`, or `raise <the bound name>`
+                last = hd.body[-1] if hd.body else None
+                same = isinstance(last, ast.Raise) and (last.exc is None or (isinstance(last.exc, ast.Name) and last.exc.id == hd.name and last.cause is None))
+                others = [x for st_ in hd.body for x in ast.walk(st_) if isinstance(x, (ast.Raise, ast.Return)) and x is not last]
+                if not same or others:
+                    problems.append(f"`except {norm(hd.type) if hd.type is not None else ''}` around `{norm(writes[0])[:40]}` (line {hd.lineno})")
+        rep.add(rule, f"{m.qualname}: connection errors while sending pass unchanged", not problems, ctx.where(m),
+                ("; ".join(problems[:2]) + " also catches the client connection failing (BrokenPipeError, ConnectionResetError, timeouts are OSErrors) and "
+                 "answers or re-raises something else: the failure is logged under another class, or not at all") if problems else "",
+                key=f"{rule}|{m.qualname}")
